@@ -56,7 +56,9 @@ impl Outcome {
     }
 }
 
-pub type RequireHook = Box<dyn FnMut(&mut Interp, &str) -> Result<Value, String>>;
+/// model `require`: shared (`Rc`) so that a module being loaded can itself call `require`
+/// (the hook stays installed while it runs; keep its state behind a `RefCell`)
+pub type RequireHook = Rc<dyn Fn(&mut Interp, &str) -> Result<Value, String>>;
 
 pub struct Interp {
     pub dialect: Dialect,
@@ -321,6 +323,21 @@ impl Interp {
             Err(Ctl::Depth) => Status::Depth,
         };
         Outcome { status, log: std::mem::take(&mut self.log), uncertain: self.uncertain.clone(), steps: (self.fuel_start - self.fuel.max(0)) as u64 }
+    }
+
+    /// run a module body for a model `require`: fresh chunk scope, same globals, same event log,
+    /// same fuel.  Returns every value the chunk returns, or the error text.
+    pub fn run_module(&mut self, block: &Block) -> Result<Vec<Value>, String> {
+        let scope = Scope::new(None);
+        match self.exec_function_body(block, &scope, &[]) {
+            Ok(v) => Ok(v),
+            Err(Ctl::Error { value, .. }) => Err(format!("error in module: {}", self.serialize(&value))),
+            Err(Ctl::Fuel) => {
+                self.fuel = -1;
+                Err("out of fuel in module".into())
+            }
+            Err(Ctl::Depth) => Err("call depth exceeded in module".into()),
+        }
     }
 
     /// run a chunk and hand back the raw values (used to build preset globals)
@@ -1590,12 +1607,11 @@ impl Interp {
                     Some(Value::Str(s)) => String::from_utf8_lossy(s).to_string(),
                     _ => return rt_err("bad argument #1 to 'require' (string expected)"),
                 };
-                let mut hook = match self.require_hook.take() {
+                let hook = match self.require_hook.clone() {
                     Some(h) => h,
                     None => return rt_err("module not found (no require model installed)"),
                 };
                 let r = hook(self, &name);
-                self.require_hook = Some(hook);
                 match r {
                     Ok(v) => Ok(vec![v]),
                     Err(m) => Err(Ctl::Error { value: Value::str(&m), positioned: true }),
